@@ -62,3 +62,30 @@ Theorem C05_lock_released :
       nth_error (fst (fst (run pre (delete_prog ids dry brk hint) a0 phi))) j = Some (OpRemoveFile PLock, rep).
 Proof. exact delete_lock_released. Qed.
 Print Assumptions C05_lock_released.
+
+(* ---- "if the delete is killed at any point ... every REMAINING complete version still
+        restores exactly": also the versions NAMED for deletion that are still there ---- *)
+From Coq Require Import List NArith.
+From CV Require Import Read FrameP History HistoryP DeleteRemP DeleteRemRestoreP.
+
+(* For every fault list, at every intermediate state and at the end: EVERY band directory
+   that still exists (named for deletion or not) existed before, has exactly its files, and
+   every block it references is unchanged: blocks are removed only once every named version
+   is gone. *)
+Theorem C05_every_remaining_version_intact :
+  forall (pre : bytes -> N) (ids : list N) (dry brk : bool) (hint : list bytes) (a0 : arch) (phi : list fault),
+    WFhunks a0 ->
+    Forall (Remaining a0) (run_states pre (delete_prog ids dry brk hint) a0 phi) /\
+    Remaining a0 (snd (fst (run pre (delete_prog ids dry brk hint) a0 phi))).
+Proof. exact delete_remaining_intact. Qed.
+Print Assumptions C05_every_remaining_version_intact.
+
+(* ... hence a complete version that is still there restores to exactly the same result
+   (entries, bytes, error count) as before the delete started. *)
+Theorem C05_every_remaining_complete_version_restores_the_same :
+  forall (pre : bytes -> N) (ids : list N) (dry brk : bool) (hint : list bytes) (keep : entry -> bool) (a0 : arch) (b : N) (phi : list fault),
+    RInv pre a0 -> complete a0 b ->
+    Forall (fun a => has_dir a (DBand b) = true -> restore_of pre keep a b = restore_of pre keep a0 b /\ complete a b)
+           (all_states pre (delete_prog ids dry brk hint) a0 phi).
+Proof. exact delete_remaining_restore_stable. Qed.
+Print Assumptions C05_every_remaining_complete_version_restores_the_same.
